@@ -26,7 +26,7 @@ ASSUMPTIONS = [
     "allowed differences: STRT/STOP/STEP values, STRT/STOP/STEP and index-curve units, empty value with a unit -> 0",
 ]
 REQUIRED = ["write_read_pairs", "items_compared", "cases_widest_item_has_empty_value", "cases_blank_mnemonic", "cases_duplicate_mnemonic",
-            "version_1.2", "version_2.0", "case_upper", "case_lower", "case_preserve", "other_text_compared", "second_generation_round_trips", "cases_header_line_over_256_chars", "other_text_with_empty_lines", "other_text_with_unicode_line_separators"]
+            "version_1.2", "version_2.0", "case_upper", "case_lower", "case_preserve", "other_text_compared", "second_generation_round_trips", "cases_header_line_over_256_chars", "other_text_with_empty_lines", "other_text_with_unicode_line_separators", "cases_vers_not_first_in_version_section"]
 SOFT_DEADLINE = {"quick": 90, "thorough": 1500}
 LEVEL_TEXT = ("Exploration: every item of every section is compared after a write->read cycle; the generators rotate which item "
               "determines the section's column widths, since one line's correctness depends on all other items of its section.")
@@ -130,6 +130,7 @@ def make_spec(rng, mode=None):
         for it in spec[sec]:
             fix_blank(it)
     spec["short_default_descr"] = rng.choice([0, 0, 1, 2, 3])
+    spec["vers_pos"] = rng.choice([0, 0, 0, 1, 2, "last"])
     other = [fields.text(rng, colons=True) for _ in range(rng.randint(0, 3))]
     other = [s for s in other if s and not s.startswith("~")]
     if rng.random() < 0.15:
@@ -167,6 +168,15 @@ def build(lasio, spec):
     las.well["NULL"].value = -999.25
     for m, u, v, d in spec["Version"]:
         las.version.append(lasio.HeaderItem(m, u, v, d))
+    if spec.get("vers_pos"):
+        # VERS need not be the first line of ~Version ("the same items in the same order")
+        items = [it for it in list.__iter__(las.version)]
+        vers = items.pop(0)
+        pos = len(items) if spec["vers_pos"] == "last" else min(int(spec["vers_pos"]), len(items))
+        items.insert(pos, vers)
+        list.clear(las.version)
+        for it in items:
+            las.version.append(it)
     for m, u, v, d in spec["Well"]:
         las.well.append(lasio.HeaderItem(m, u, v, d))
     for m, u, v, d in spec["Parameter"]:
@@ -230,6 +240,8 @@ def run_case(case, ctx):
         ctx.count("cases_header_line_over_256_chars")
     if any(it[0].strip() == "" for s in ("Well", "Curves", "Parameter", "Version") for it in spec[s]):
         ctx.count("cases_blank_mnemonic")
+    if spec.get("vers_pos"):
+        ctx.count("cases_vers_not_first_in_version_section")
     if any(len({it[0] for it in spec[s]}) < len(spec[s]) for s in ("Well", "Curves", "Parameter", "Version")):
         ctx.count("cases_duplicate_mnemonic")
     for mc in ("preserve", "upper", "lower"):
@@ -256,8 +268,8 @@ def run_case(case, ctx):
                 problems = []
                 if g.original_mnemonic != f(m):
                     problems.append("mnemonic %r -> %r" % (f(m), g.original_mnemonic))
-                if name == "Version" and i == 0 and up == "VERS":
-                    continue        # write(version=v) states v (and its description) in the output
+                if name == "Version" and up == "VERS" and [w[0].upper() for w in want].count("VERS") == 1:
+                    continue        # write(version=v) states v (and its description) in the output; its position is compared above
                 is_sss = name == "Well" and up in ("STRT", "STOP", "STEP")
                 is_index = name == "Curves" and i == 0
                 if not (is_sss or is_index) and g.unit != u:
